@@ -301,6 +301,68 @@ def run_order(case):
 
 # ---- stage times --------------------------------------------------------------------------------------------------
 
+
+# ---- stage 'ragged': intervals that are NOT a whole number of steps, with a large minimum step fraction ----------------
+# The last step is the remainder (shorter than the minimum step, as the solver documents).  The end state must be the one
+# obtained by taking exactly those steps - N full steps and the remainder - with the scheme of the iterator; in particular
+# the solver may not move the clock to the end time without advancing the state over the remainder.
+
+def _ref_steps(f, t, x, dts, it):
+    x = np.array(x, dtype=float)
+    for h in dts:
+        if it == 'euler':
+            x = x + h * f(t, x)
+        else:
+            k1 = f(t, x)
+            k2 = f(t + h / 2, x + h / 2 * k1)
+            k3 = f(t + h / 2, x + h / 2 * k2)
+            k4 = f(t + h, x + h * k3)
+            x = x + h / 6 * (k1 + 2 * k2 + 2 * k3 + k4)
+        t = t + h
+    return t, x
+
+
+def run_ragged(case):
+    name, x0, t0, T, it, m, frac, minfrac = (case['system'], case['x0'], case['t0'], case['T'], case['it'], case['m'],
+                                             case['frac'], case['minfrac'])
+    sysd = SYS[name]
+    h = T / (2 ** m + frac)
+    tag = 'ragged system=%s x0=%r t0=%r T=%r it=%s h=T/(%d+%g) minDtFrac=%g' % (name, x0, t0, T, it, 2 ** m, frac, minfrac)
+    viol = []
+    mdl = SysModel(sysd['f'], t0, x0, h, layout='array')
+    try:
+        mdl.solve(T, solverType=SolverType.EXPLICITEULER if it == 'euler' else SolverType.RK4, minDtFrac=minfrac)
+    except Exception as e:
+        return {'viol': [{'sig': 'ragged/exception/%s' % it, 'msg': '%s: %s: %s' % (tag, type(e).__name__, e)}], 'states': 0, 'outcome': 'exception'}
+    times = [t0] + [e[1] for e in mdl.events if e[0] == 'post']
+    dts = [b - a for a, b in zip(times[:-1], times[1:])]
+    # the step sizes the solver handed to the model (last correctdXdt call of every step)
+    used = [e[1] for e in mdl.events if e[0] == 'c']
+    per = 1 if it == 'euler' else 4
+    dts_used = used[per - 1::per]
+    tf = t0 + T
+    if times[-1] != tf:
+        viol.append({'sig': 'ragged/end-time/%s' % it, 'msg': '%s: ended at %r, requested %r' % (tag, times[-1], tf)})
+    if len(dts_used) != len(dts):
+        viol.append({'sig': 'ragged/steps-vs-updates/%s' % it, 'msg': '%s: %d accepted steps but %d state updates' % (tag, len(dts), len(dts_used))})
+    else:
+        # clock and state must advance together: every accepted time increment equals the step the state was advanced by
+        bad = [i for i, (a, b) in enumerate(zip(dts, dts_used)) if abs(a - b) > 4 * np.spacing(max(abs(times[i + 1]), 1.0))]
+        if bad:
+            i = bad[0]
+            viol.append({'sig': 'ragged/clock-vs-state/%s' % it, 'msg': '%s: step %d moved the clock by %r but the state by %r' % (tag, i, dts[i], dts_used[i])})
+        _, xr = _ref_steps(sysd['f'], t0, x0, dts_used, it)
+        if not np.allclose(mdl.x, xr, rtol=1e-11, atol=1e-14):
+            viol.append({'sig': 'ragged/state-vs-reference/%s' % it, 'msg': '%s: end state %r, reference over the same steps %r' % (tag, mdl.x, xr)})
+    # and the end state must be accurate for the END TIME (error within the scheme's bound for that step size: generous x50)
+    err = _err(sysd, t0, x0, tf, mdl.x)
+    _, xfull = _ref_steps(sysd['f'], t0, x0, [h] * (2 ** m) + [T - h * 2 ** m], it)
+    eref = _err(sysd, t0, x0, tf, xfull)
+    if err > 50 * eref + 1e-12:
+        viol.append({'sig': 'ragged/accuracy-at-end-time/%s' % it, 'msg': '%s: error at the end time %r, reference scheme over N steps + remainder %r' % (tag, err, eref)})
+    return {'viol': viol, 'states': len(dts), 'transitions': len(dts), 'outcome': 'rem=%s' % ('short' if dts and dts[-1] < minfrac * T else 'long')}
+
+
 def _expected_times(it, t, dt):
     return [t] if it == 'euler' else [t, t + dt / 2, t + dt / 2, t + dt]
 
@@ -470,6 +532,17 @@ def run(ctx):
                   'durations_per_system': 1 if quick else 2, 'iterators': ['euler', 'rk4'], 'paths': paths, 'forms': forms,
                   'order_bands': BAND, 'error_floor': FLOOR}
     ctx.product_run('order', 'checks.c06:run_order', cases, chunksize=1)
+    rcases = []
+    for name in (['decay', 'cos', 'oscillator'] if quick else ORDER_SYSTEMS):
+        sysd = SYS[name]
+        for x0 in sysd['x0s'][:2]:
+            for t0 in sysd['t0s'][:2]:
+                for it in ('euler', 'rk4'):
+                    for m in (3, 4, 5):
+                        for frac in (0.3, 0.9):
+                            for minfrac in (1e-8, 0.02):
+                                rcases.append({'system': name, 'x0': x0, 't0': t0, 'T': sysd['T'], 'it': it, 'm': m, 'frac': frac, 'minfrac': minfrac})
+    ctx.product_run('ragged', 'checks.c06:run_ragged', rcases)
 
     ts = LAT_T if quick else LAT_T + LAT_T_X
     hs = LAT_H if quick else LAT_H + LAT_H_X
